@@ -972,7 +972,9 @@ class Tokenizer:
                 self,
                 suggestion="You may have missed a comma",
             )
-        if tokens[0].string == (":" if is_nbt else "="):
+        if tokens[0].token_type == TokenType.OPERATOR and tokens[0].string == (
+            ":" if is_nbt else "="
+        ):
             raise JMCSyntaxException(f"Empty key in {where}", tokens[0], self)
         if is_kwargs:
             raise JMCSyntaxException(
